@@ -286,6 +286,9 @@ def rule_rej_exc_strat(repo, tier):
                         bad.setdefault('strategy.update is called %d times before the accept/reject decision of a completed trial (must be once)' % strat, e[1])
             elif e[0] == 'back' and e[1] is loop:
                 n_back += 1
+                if handler:
+                    bad.setdefault('the handler path of a failed solve takes the back edge of the trial loop: after the solver raised the call goes on with another, more '
+                                   'damped trial instead of ending with the parameters and the loss as they were before that trial', loop)
                 if not (guard and inc):
                     bad.setdefault('a path takes the back edge of the trial loop without passing `reject_count < self.reject` and '
                                    'incrementing reject_count: the number of trials per call is not bounded by reject+1', loop)
